@@ -45,7 +45,7 @@ CHECKS = {
             "Trusted: the shape checker and set model in props/c08.cxx, the comparators used (total orders), sanitizers, the simulated allocator. Tree internals are read through classes derived from the protected core.",
             "4/C08"),
     "C09": (True,
-            TECH + ": creation-time and every-step observation of type() against a typing table (kind-fixed, borrowed-as-agreement, given) on seeded histories with growing sequences",
+            TECH + ": creation-time and every-step observation of type() against a typing table (kind-fixed, borrowed-as-agreement, given) on seeded histories with growing sequences, injected bad_alloc (with retry) and product tracking by observation on scopes whose insertion failed",
             "Seeded search over histories; each node's type() is compared with what its kind prescribes, borrowed types are checked as agreement with their source at every step, and product types of scopes / parameter lists / expression lists are re-checked after every addition. Evidence, not proof.",
             "Trusted: the reference model and observer in /verif/model (expectations are built from operation inputs only), AddressSanitizer/UBSan, the simulated allocator. Sampling, not enumeration: a clean batch means no counterexample among the runs explored.",
             "4/C09"),
@@ -55,7 +55,7 @@ CHECKS = {
             "Trusted: the reference model and observer in /verif/model (expectations are built from operation inputs only), AddressSanitizer/UBSan, the simulated allocator. Sampling, not enumeration: a clean batch means no counterexample among the runs explored.",
             "4/C11"),
     "C12": (True,
-            TECH + ": seeded nesting histories of regions and region-owning constructs in random creation order; parent/owner/depth model checked after every step",
+            TECH + ": seeded nesting histories of regions and region-owning constructs in random creation order; parent/owner/depth model checked after every step; injected bad_alloc, after which the list that was being extended is still read for self-consistency",
             "Seeded search over nesting histories against a parent-link model: enclosing, walk to the unit's root in exactly the modelled number of steps, owners, handler regions, positions and levels in homogeneous scopes. Evidence, not proof.",
             "Trusted: the reference model and observer in /verif/model (expectations are built from operation inputs only), AddressSanitizer/UBSan, the simulated allocator. Sampling, not enumeration: a clean batch means no counterexample among the runs explored.",
             "4/C12"),
@@ -65,7 +65,7 @@ CHECKS = {
             "Trusted: the reference model and observer in /verif/model, the simulated allocator (accounting, poisoning), AddressSanitizer/UBSan (and ThreadSanitizer for C20's third layer). Sampling, not enumeration.",
             "4/C13"),
     "C14": (True,
-            TECH + ": seeded histories leaving nodes partially built, followed by accessor sweeps with out-of-range probing of every sequence, under ASan+UBSan",
+            TECH + ": seeded histories leaving nodes partially built, followed by accessor sweeps with out-of-range probing of every sequence in rotating read orders, injected bad_alloc, under ASan+UBSan",
             "Seeded search over partially built states; every accessor of every reachable node and every sequence index from 0 to beyond size() must return a touchable result or throw std::logic_error; sanitizer reports fail the run. Evidence, not proof.",
             "Trusted: the reference model and observer in /verif/model (expectations are built from operation inputs only), AddressSanitizer/UBSan, the simulated allocator. Sampling, not enumeration: a clean batch means no counterexample among the runs explored.",
             "4/C14"),
@@ -80,18 +80,18 @@ CHECKS = {
             "Trusted: the reference model and observer in /verif/model (expectations are built from operation inputs only), AddressSanitizer/UBSan, the simulated allocator. Sampling, not enumeration: a clean batch means no counterexample among the runs explored.",
             "4/C16"),
     "C17": (True,
-            TECH + ": one construction program executed in two Lexicons interleaved by the scheduler, in different sub-arenas under different placement policies, with noise allocations and unrelated constructions in one of them; outputs on simulated streams compared byte for byte",
+            TECH + ": one construction program executed in two Lexicons interleaved by the scheduler, in different sub-arenas under different placement policies, with noise allocations and unrelated constructions in one of them and a different fill pattern of fresh memory in each; outputs on simulated streams compared byte for byte",
             "Seeded search over programs of the printable fragment and over pairs of construction histories (addresses, policies, noise): texts must be byte-identical per option setting, a second print must reproduce the first, printing must leave the observable graph untouched, sentinel locations appear iff enabled. Evidence, not proof.",
             "Trusted: the reference model and observer in /verif/model, the acyclicity discipline of the graph generator (DESIGN.md), AddressSanitizer/UBSan, the simulated allocator and stream buffer. Sampling, not enumeration.",
             "4/C17"),
     "C18": (True,
-            TECH + ": kind sweep (every node kind x every printer entry point, each in its own run, crash attributed through breadcrumbs) plus seeded graphs printed on simulated streams with odd initial state, failing after N bytes or throwing",
+            TECH + ": kind sweep (every node kind x every printer entry point, each in its own run, crash attributed through breadcrumbs) plus seeded graphs printed on simulated streams with odd initial state, failing after N bytes or throwing, and printed again through the same Printer once the stream is repaired",
             "Every kind the workload can build is offered to every entry point; seeded graphs with spellings over all byte values are printed on simulated streams; termination (process survival), stream state, decimal numbers, control bytes and printer indentation are checked; with a failing sink only termination and memory safety. Evidence, not proof.",
             "Trusted: the reference model and observer in /verif/model, the acyclicity discipline of the graph generator (DESIGN.md), AddressSanitizer/UBSan, the simulated allocator and stream buffer. Sampling, not enumeration.",
             "4/C18"),
     "C19": (True,
             TECH + ": full workload on up to four Lexicons destroyed and re-created in place; deterministic leak accounting by the simulated heap per destroyed Lexicon; fault enumeration sub-runs failing every allocation of sampled histories in turn",
-            "Seeded search over construction/destruction histories with heap reuse; after each destruction the simulated heap's live set for that Lexicon must be empty; sanitizers watch every step; sampled histories get every allocation failed in turn (memory safety and earlier-results-intact only). Evidence, not proof; the enumerated sub-space is exhaustive only relative to the sampled history.",
+            "Seeded search over construction/destruction histories with heap reuse; after each destruction the simulated heap's live set for that Lexicon must be empty; sanitizers watch every step; sampled histories get every allocation failed in turn (memory safety, earlier results intact, and the same leak oracle when the Lexicon is destroyed later). Evidence, not proof; the enumerated sub-space is exhaustive only relative to the sampled history.",
             "Trusted: the reference model and observer in /verif/model, the simulated allocator (accounting, poisoning), AddressSanitizer/UBSan (and ThreadSanitizer for C20's third layer). Sampling, not enumeration.",
             "4/C19"),
     "C20": (True,
